@@ -132,6 +132,25 @@ def export_variants(beh, cap, rng):
     return [beh[:i + 1] + [{"a": "ExportImport"}] + beh[i + 1:] for i in idx]
 
 
+def bulk_export_behaviour(n=20010):
+    """A WRKChain holding MORE records than an export carries (the newest 20,000): n records are executed without being
+    recorded one by one (harness event Bulk -> one line `Adopt`), then export + import, then three more records."""
+    g = {"accts": ["A1", "A2"], "bal": {"A1": {"nund": 100000, "other": 0}, "A2": {"nund": 1000, "other": 0}},
+         "ent": {"signers": ["A1"], "min": 1, "limit": 2, "denom": "nund", "wl": [], "startId": 1},
+         "wrk": {"feeReg": 4, "feeRec": 1, "feePur": 1, "denom": "nund", "def": n + 10, "max": n + 10000, "startId": 1},
+         "bcn": {"feeReg": 4, "feeRec": 1, "feePur": 1, "denom": "nund", "def": 2, "max": 3, "startId": 1},
+         "str": {"feeNum": 1, "feeDen": 100}}
+    rec = lambda h: {"t": "WRec", "owner": "A1", "id": 1, "h": h, "bh": "b", "ph": "", "h1": "", "h2": "", "h3": ""}
+    return [{"a": "InitChain", "g": g}, {"a": "BeginBlock", "dt": 1000},
+            {"a": "DeliverTx", "fee": {"nund": 4}, "msgs": [{"t": "WReg", "owner": "A1", "moniker": "m", "name": "n", "genesis": "g", "type": "t"}]},
+            {"a": "EndBlock"}, {"a": "Commit"},
+            {"a": "Bulk", "n": n, "id": 1, "owner": "A1"},
+            {"a": "ExportImport"},
+            {"a": "BeginBlock", "dt": 1000},
+            {"a": "DeliverTx", "fee": {"nund": 3}, "msgs": [rec(n + 1), rec(n + 2), rec(n + 3)]},
+            {"a": "EndBlock"}, {"a": "Commit"}]
+
+
 def c15_custom(pid, tier, plan, scr, hbin, specdir):
     import json, random
     import vlib
@@ -159,6 +178,11 @@ def c15_custom(pid, tier, plan, scr, hbin, specdir):
         cov["export_import_round_trips"] += len(variants)
         if len(cov["samples"]) < 2:
             cov["samples"].append(dict(source=cfg, behaviour=variants[len(variants) // 2][1:16]))
+    # the 20,000-record export cap on the real application
+    rec, _ = vlib.record_behaviours(hbin, [bulk_export_behaviour()], scr, name="bulk-export")
+    recs.append((rec, "scripted: WRKChain with 20,010 records in state, export + import, further records", 1))
+    cov["export_import_round_trips"] += 1
+    cov["export_cap_crossed_on_real_app"] = True
     for prof, (steps, runs) in (("expmix", (250, 3) if tier == "quick" else (1500, 12)), ("expreg", (150, 2) if tier == "quick" else (1000, 8))):
         rec = vlib.record_random(hbin, prof, sd, steps, runs, scr)
         n = sum(1 for l in open(rec) if l.startswith('{"a":"ExportImport"'))
@@ -448,7 +472,7 @@ PLANS = {
                 assumptions=COMMON_ASSUME + ["the order of the stream store is computed independently of the repository's key builders (length-prefixed receiver, sender bytes)"]),
     "C15": dict(custom=c15_custom,
                 rule="TLC checks C15State (import assertions hold, round trip is the identity on the four modules' state up to the export cap, second export identical, imported state satisfies every module invariant) in EVERY reachable state of MC_Fee / MC_Reg (export cap 2) / MC_Str; on the real app, TLC-simulated behaviours get an export + import into a fresh default-configured app after every block boundary (one variant each) and seeded random histories at random boundaries; import must not panic, all registered invariants must hold, the second export's enterprise/wrkchain/beacon/stream sections must be identical, projections equal, and the rest of the behaviour runs on both chains in lockstep with equal projections",
-                assumptions=COMMON_ASSUME + ["sections of SDK modules in the exported document are not compared", "the 20,000-record export cap is crossed only in the model (cap 2), not on the real app"]),
+                assumptions=COMMON_ASSUME + ["sections of SDK modules in the exported document are not compared", "the 20,000-record export cap is crossed on the real app in one scripted scenario (a WRKChain with 20,010 records) and everywhere in the model (cap 2)"]),
     "C18": dict(custom=c18_custom, replay=c18_replay, trace_module="TraceKeys.tla", trace_cfg="TraceKeys.cfg",
                 rule="TLC exhaustive on MC_Keys PairSpec (every ordered pair of logical keys of one module's store for id width W <= 3 and small byte alphabets: injective, no prefix capture by section / per-registration / per-receiver scans, byte order = numeric order, stream keys parse back) and KVSpec (every Set/Del sequence over four symbolic keys per keeper section on the ideal map: non-interference, exact ordered iteration); every KV behaviour is executed on the REAL keepers with the symbolic keys instantiated from boundary tables (ids/heights 0, 1, 2^63, 2^64-1, byte-reversed twins; addresses of lengths 1..255 incl. 20/32/255, proper prefixes of each other; streams with receiver/sender swapped or sharing prefixes); after every operation every key is read back by point reads, iteration/list functions and the stream gRPC list queries; non-trivial = one recorded operation with its complete read-back judged by TraceKeys against Keys.tla",
                 assumptions=COMMON_ASSUME[:2] + ["keepers are exercised on a cache branch of a block in progress, not through transactions (addresses of 1..255 bytes cannot sign)", "the real key builders' bytes are compared with the Appendix C layout as notes only; a different alias-free layout is allowed"]),
